@@ -469,6 +469,9 @@ func runC15(t *testing.T, c c15Case, st *drv.Stats) (fail *drv.Failure) {
 // the check.
 var c15TraceN int
 
+// c15Debug (VERIF_C15_DEBUG=1): print every request and the model after it (triage aid).
+var c15Debug = os.Getenv("VERIF_C15_DEBUG") != ""
+
 type c15DetReader struct {
 	mu sync.Mutex
 	x  uint64
@@ -525,6 +528,11 @@ type c15Run struct {
 	// autoNames: the names of the index channels the current create makes up for its
 	// calculated channels (minus those the request also asks for by name)
 	autoNames map[string]bool
+	// lookupFail: the first disagreement between a node's retrieval by name and its own
+	// metadata. The statement speaks of names, not of look-ups, so the case goes on (the
+	// service finds name conflicts and by-name targets through this look-up: failures that
+	// follow carry a marker) and ends with this failure if nothing else went wrong.
+	lookupFail *drv.Failure
 }
 
 func (r *c15Run) svc(k int) *channel.Service { return r.cl.nodes[node.Key(k)].layer.Channel }
@@ -582,23 +590,56 @@ func c15Authority(k channel.Key) node.Key {
 // through aspen's gossip. With want != nil settle returns as soon as every node's view
 // equals want (or the authorities differ from want for good); with want == nil (after a
 // failed request, whose effect the model cannot predict) as soon as all views agree and
-// have not changed for a few gossip rounds. stale reports that some node's view still
-// differed from the authorities' when the time ran out. Gossip that dies out before it
-// reached every node is property C06's business (known finding there), not this one's.
+// have not changed for a few gossip rounds.
+//
+// Aspen's gossip may die out before an operation has reached every node (property C06's
+// business and a known finding there; about one case in a thousand here). Which rounds
+// die is decided by goroutine timing the harness does not control, so the case must not
+// depend on it: when the views still disagree after 1.5 s (150 gossip rounds), settle
+// starts a fresh rumor for every channel some node is behind on by repeating the last
+// request in a form that changes nothing - through the channel's authority, a rename to
+// the name it has, or a delete of the key that is gone - and waits again. stale reports
+// that even four such rounds did not help.
 func (r *c15Run) settle(want map[channel.Key]c15Row) (auth map[channel.Key]c15Row, stale bool, err error) {
-	deadline := time.Now().Add(3 * time.Second)
-	var prev map[channel.Key]c15Row
-	stable, wrong := 0, 0
 	if want == nil {
 		time.Sleep(simrt.UniqueDur(60 * time.Millisecond))
 	}
+	for attempt := 0; ; attempt++ {
+		var behind []channel.Key
+		var done bool
+		auth, behind, done, err = r.settleOnce(want)
+		if err != nil || done || len(behind) == 0 {
+			return auth, false, err
+		}
+		if attempt == 4 {
+			return auth, true, nil
+		}
+		r.st.Probe("gossip_died_out_rumor_restarted")
+		for _, k := range behind {
+			n := r.cl.nodes[c15Authority(k)]
+			if row, ok := auth[k]; ok {
+				_ = n.layer.Channel.RenameMany(r.ctx, channel.Keys{k}, []string{row.Name}, true)
+			} else {
+				_ = n.layer.Channel.DeleteMany(r.ctx, channel.Keys{k}, true)
+			}
+		}
+	}
+}
+
+// settleOnce polls for at most 1.5 s. done: nothing more to wait for (views agree, or the
+// authorities contradict want). behind: the channels on which some node's view differs
+// from the authorities' when the time ran out.
+func (r *c15Run) settleOnce(want map[channel.Key]c15Row) (auth map[channel.Key]c15Row, behind []channel.Key, done bool, err error) {
+	deadline := time.Now().Add(1500 * time.Millisecond)
+	var prev map[channel.Key]c15Row
+	stable, wrong := 0, 0
 	for {
 		views := map[node.Key]map[channel.Key]c15Row{}
 		auth = map[channel.Key]c15Row{}
 		for _, n := range r.cl.order {
 			v, err := r.metaView(n)
 			if err != nil {
-				return nil, false, fmt.Errorf("retrieving all channels on node %d: %w", n.key, err)
+				return nil, nil, false, fmt.Errorf("retrieving all channels on node %d: %w", n.key, err)
 			}
 			views[n.key] = v
 			for k, row := range v {
@@ -614,10 +655,10 @@ func (r *c15Run) settle(want map[channel.Key]c15Row) (auth map[channel.Key]c15Ro
 		if want != nil {
 			if !c15SameView(auth, want) {
 				if wrong++; wrong >= 5 {
-					return auth, !agree, nil
+					return auth, nil, true, nil
 				}
 			} else if agree {
-				return auth, false, nil
+				return auth, nil, true, nil
 			}
 		} else if agree {
 			if prev != nil && c15SameView(prev, auth) {
@@ -627,13 +668,29 @@ func (r *c15Run) settle(want map[channel.Key]c15Row) (auth map[channel.Key]c15Ro
 			}
 			prev = auth
 			if stable >= 3 {
-				return auth, false, nil
+				return auth, nil, true, nil
 			}
 		} else {
 			prev, stable = nil, 0
 		}
 		if time.Now().After(deadline) {
-			return auth, !agree, nil
+			if agree {
+				return auth, nil, true, nil
+			}
+			diff := map[channel.Key]bool{}
+			for _, n := range r.cl.order {
+				for k, row := range views[n.key] {
+					if a, ok := auth[k]; !ok || a != row {
+						diff[k] = true
+					}
+				}
+				for k := range auth {
+					if _, ok := views[n.key][k]; !ok {
+						diff[k] = true
+					}
+				}
+			}
+			return auth, c15SortedKeys(diff), false, nil
 		}
 		time.Sleep(simrt.UniqueDur(30 * time.Millisecond))
 	}
@@ -989,6 +1046,9 @@ func (r *c15Run) body() (fail *drv.Failure) {
 			return f
 		}
 		if r.stop {
+			if r.lookupFail != nil {
+				return r.lookupFail
+			}
 			r.st.Inconcl("metadata_not_propagated_to_every_node")
 			return nil
 		}
@@ -1001,6 +1061,9 @@ func (r *c15Run) body() (fail *drv.Failure) {
 	if f := r.checkDeleted(x, "at the end of the case", c15SortedKeys(r.deleted)); f != nil {
 		return f
 	}
+	if r.lookupFail != nil {
+		return r.lookupFail
+	}
 	if d := os.Getenv("VERIF_TRACEDIR"); d != "" {
 		c15TraceN++
 		cj, _ := json.Marshal(r.c)
@@ -1011,6 +1074,12 @@ func (r *c15Run) body() (fail *drv.Failure) {
 }
 
 func (r *c15Run) finish(x c15Ctx, what string, touched []channel.Key, how map[channel.Key]string, gone []channel.Key) *drv.Failure {
+	if c15Debug {
+		fmt.Fprintf(os.Stderr, "c15: %s -> %s\n", what, x.outcome)
+		for _, k := range c15SortedKeys(r.live) {
+			fmt.Fprintf(os.Stderr, "c15:     model %v\n", r.live[k])
+		}
+	}
 	auth, stale, err := r.settle(r.live)
 	if err != nil {
 		return drv.Failf("unexpected-error", "retrieve-all", "%s: %v", what, err)
@@ -1025,15 +1094,13 @@ func (r *c15Run) finish(x c15Ctx, what string, touched []channel.Key, how map[ch
 		r.stop = true
 		return nil
 	}
-	r.checkNameLookup(x)
+	r.checkNameLookup(x, what)
 	return r.checkDeleted(x, what, gone)
 }
 
-// checkNameLookup notes (it does not fail: the statement speaks of names, not of look-ups)
-// when a node's retrieval by name disagrees with the very same node's metadata, which by
-// now equals the model on every node. The channel service finds name conflicts through
-// this look-up.
-func (r *c15Run) checkNameLookup(x c15Ctx) {
+// checkNameLookup notes when a node's retrieval by name disagrees with the very same
+// node's metadata, which by now equals the model on every node (see lookupFail).
+func (r *c15Run) checkNameLookup(x c15Ctx, what string) {
 	if r.idxStale != "" {
 		return
 	}
@@ -1053,23 +1120,39 @@ func (r *c15Run) checkNameLookup(x c15Ctx) {
 	sort.Strings(sorted)
 	for _, n := range r.cl.order {
 		for _, nm := range sorted {
-			var got []channel.Channel
-			if err := n.layer.Channel.NewRetrieve().Where(channel.MatchNames(nm)).Entries(&got).Exec(r.ctx, nil); err != nil {
-				got = nil
-			}
 			var gk, wk []channel.Key
-			for _, ch := range got {
-				gk = append(gk, ch.Key())
-			}
 			for _, k := range c15SortedKeys(r.live) {
 				if r.live[k].Name == nm {
 					wk = append(wk, k)
 				}
 			}
-			sort.Slice(gk, func(i, j int) bool { return gk[i] < gk[j] })
+			// the look-up is maintained by an observer of the key-value store, which may
+			// run a little after the store itself has changed
+			for try := 0; try < 12; try++ {
+				var got []channel.Channel
+				if err := n.layer.Channel.NewRetrieve().Where(channel.MatchNames(nm)).Entries(&got).Exec(r.ctx, nil); err != nil {
+					got = nil
+				}
+				gk = nil
+				for _, ch := range got {
+					gk = append(gk, ch.Key())
+				}
+				sort.Slice(gk, func(i, j int) bool { return gk[i] < gk[j] })
+				if fmt.Sprint(gk) == fmt.Sprint(wk) {
+					break
+				}
+				time.Sleep(simrt.UniqueDur(50 * time.Millisecond))
+			}
 			if fmt.Sprint(gk) != fmt.Sprint(wk) {
 				r.idxStale = ":name-index-stale"
 				r.st.Probe("name_lookup_disagrees_with_metadata_after_" + x.op)
+				role := "peer"
+				for _, k := range append(append([]channel.Key{}, gk...), wk...) {
+					if c15Authority(k) == n.key {
+						role = "authority"
+					}
+				}
+				r.lookupFail = drv.Failf("name-lookup-mismatch", x.sig()+":on-the-channels-"+role, "%s: afterwards node %d finds channels %v under the name %q, while its own metadata (equal to every other node's) holds that name for channels %v", what, n.key, gk, nm, wk)
 				return
 			}
 		}
@@ -1290,12 +1373,12 @@ func (r *c15Run) doCreate(oi int, op c15Op) *drv.Failure {
 			if op.Opt == "" {
 				return drv.Failf("key-not-unique", "existing-channel:"+kindName, "%s returned %v under the key of existing channel %v", what, ch, e)
 			}
-			if _, still := r.live[k]; !still {
-				return drv.Failf("create-result-mismatch", "overwrite-returned-differing-channel:"+kindName, "%s returned existing channel %v although its properties differ from the request", what, e)
-			}
 			if e.Name != ch.Name {
 				// the two options hand back existing channels by name only
 				return drv.Failf("key-not-unique", "existing-channel:"+kindName, "%s returned %v under the key of existing channel %v", what, ch, e)
+			}
+			if _, still := r.live[k]; !still {
+				return drv.Failf("create-result-mismatch", "overwrite-returned-differing-channel:"+kindName, "%s returned existing channel %v although its properties differ from the request (returned: %v)", what, e, chans)
 			}
 			r.st.Probe("create_returned_existing_channel")
 			continue
